@@ -39,7 +39,8 @@ EXPLANATION = (
     'value-level "accepts exactly".'
     ' R8: the decoder validates against the generated validators, so generate_validator_constructor must forward every IR constructor parameter, wrap Nullable on every return, and generate_func_call must drop a keyword only for None (shared with C08-R3).'
     ' R9 (imported from C08-R6): the decoder builds unions through Union.__init__, whose type-only shortcut must stay limited to Struct/Union validators.'
-    ' R11 (imported from C08-R10): condition drift of the runtime refusal sites.')
+    ' R11 (imported from C08-R10): condition drift of the runtime refusal sites.'
+    ' RD (decision drift, stonelint.conddrift): the tests of the functions this property is anchored in (stonelint.ownership) are compared with reference/conditions.json; a relation, polarity or connective changed over the same operands, or an operand purely added or dropped, is a violation; re-spellings and new or removed tests are not claimed.')
 ASSUMPTIONS = [
     'CPython ast of the working tree is the program; structured control flow',
     'implicit exceptions are modelled only for: container operations on the untrusted document, '
@@ -680,6 +681,11 @@ def run(pm, ctx):
     ctx.import_rules(pm, 'C08', {'C08-R10'}, 'C06-R11',
                      'the decoder and the validators refuse under the conditions confirmed on the '
                      'reference tree (shared with C08-R10)')
+
+    from ..conddrift import run_decisions
+    from ..ownership import OWN
+    run_decisions(pm, ctx, 'C06-RD', OWN['C06'])
+
 
 def _construct(site):
     n = site.node
